@@ -154,7 +154,7 @@ func runAddr(c *h.Ctx, ac AddrCase) {
 
 var addrProp = h.Define(P, "address", func(t *rapid.T) AddrCase {
 	return AddrCase{Tok: tok.Gen(t, tok.GenCfg{Algs: keys.AllAlgs, NoTopNull: true, OnlyFuture: true,
-		Values: val.Cfg{Depth: 2, MaxLen: 3, SafeInts: true}})}
+		Values: val.Cfg{Depth: 2, MaxLen: 3, SafeInts: true, Big: true}})}
 }, runAddr)
 
 func TestAddress(t *testing.T) { addrProp.Check(t) }
